@@ -615,6 +615,30 @@ func c13Units(tier string) []Unit {
 				}})
 		}})
 	}
+	// several waiters on ONE index, one of them with a context that is cancelled before the index is finished: the
+	// others must still be released (hand-written: the generated scripts have at most three operations per set here)
+	for si, s := range [][][]wmStep{
+		{{{"B", 1}, {"X", 0}, {"D", 1}}, {{"W", 1}}, {{"V", 1}}},
+		{{{"B", 2}, {"X", 0}, {"D", 2}}, {{"W", 2}}, {{"V", 2}}, {{"W", 2}}},
+		{{{"B", 1}, {"B", 2}, {"X", 0}, {"D", 2}, {"D", 1}}, {{"W", 2}}, {{"V", 2}}, {{"V", 1}}},
+	} {
+		si, s := si, s
+		units = append(units, Unit{Name: fmt.Sprintf("waiters-on-one-index/%d", si), Weight: 8, Run: func(c *Ctx) {
+			var obs string
+			bud := []int{0, 1, 2}
+			if tier == "thorough" {
+				bud = []int{0, 1, 2, 3}
+			}
+			nv := len(c.Res.Violations)
+			ExploreSched(c, wmScenario(s, &obs), SchedOpts{Delay: true, Budgets: bud, MaxEnv: -1, MaxSteps: 20000,
+				Outcome: func() string { return obs },
+				NT:      func() string { return scriptString(s) + "#" + obs },
+				Sample:  func() any { return map[string]any{"scripts": scriptString(s), "result": obs} }})
+			for k := nv; k < len(c.Res.Violations); k++ {
+				c.Res.Violations[k].Detail = "scripts: " + scriptString(s) + "\n" + c.Res.Violations[k].Detail
+			}
+		}})
+	}
 	// a burst that fills the channel buffer with finished work, then an index that stays open while a higher one is
 	// begun and finished: marks must be counted in the order in which their calls returned, also beyond the buffer
 	for _, pairs := range []int{49, 50, 51} {
